@@ -50,8 +50,9 @@ DIRECTED = [
 def run(tier, seed):
     return kc.run_property(
         PID, LEVEL, tier, seed, THEMES,
-        quick_num=10 if len(THEMES) > 1 else 24, thorough_num=250,
+        quick_num=12 if len(THEMES) > 1 else 24, thorough_num=250,
         assumptions=kc.COMMON_ASSUMPTIONS, rule=RULE, needed_events=NEEDED,
+        mc_cfgs=(['MC_Krill_q_roll.cfg', 'MC_Krill_q_life.cfg'] if tier == "quick" else ['MC_Krill_q_roll.cfg', 'MC_Krill_q_life.cfg', 'MC_Krill_roll.cfg', 'MC_Krill_life.cfg']),
         directed=DIRECTED)
 
 
